@@ -7,7 +7,8 @@ import BPT.Props.C12
     (`Res.ub` otherwise); on valid states no call reaches `ub` — for all capacities and histories;
   * reference counts: for every call, as multisets, slots-after ++ DECREFs = slots-before ++ INCREFs
     (leaf splits, branch splits with separator ownership moving up, overwrites, deletions, lookups);
-    destroying the tree releases exactly the slots;
+    destroying the tree releases exactly the slots; an iterator step takes one new reference per object it hands out,
+    releases nothing, and only touches objects a slot currently owns;
   * capacity: the constructor stores exactly the capacity it was given or rejects it; the legacy
     (pre-D11) model accepts 65536, stores 0 and its first insert leaves the array (proved by `decide`);
   * the legacy (pre-D9) model leaks on a leaf split (proved by `decide`).
@@ -52,6 +53,20 @@ theorem lookups_balanced (s : CState K V) (k : K) :
     (∀ r ev, getitem s k = .ok (r, ev) → ev.dec = [] ∧ ev.inc = r.toList.map (Obj.val (K := K))) ∧
     (∀ b ev, contains s k = .ok (b, ev) → ev.inc = ev.dec) :=
   ⟨fun r ev he => getitem_refs s k r ev he, fun b ev he => contains_refs s k b ev he⟩
+
+/-- iterator steps (`next()` of `iter(t)`, `keys()`, `items()`): nothing is released, exactly one new reference is taken for
+    each key / value object inside the returned value, and every such object is owned by a slot of the tree at that
+    moment; a stale iterator (stamp mismatch) touches nothing at all -/
+theorem iterator_step_balanced (s : CState K V) (hi : CInv s) (it : Iter) (R : List (K × V)) (hp : Pos s it R) :
+    ∃ it' out, iterNext s it = .ok (it', out) ∧ (iterEvs out).dec = [] ∧ (iterEvs out).inc = handedOut out ∧
+      ∀ o ∈ (iterEvs out).inc, o ∈ slots s :=
+  iterNext_refs s (walk_of_cinv s hi) it R hp
+
+theorem stale_iterator_touches_nothing (s : CState K V) (it : Iter) (h : it.modc ≠ s.modc) :
+    iterNext s it = .ok (it, .runtimeError) ∧ (iterEvs (IterOut.runtimeError : IterOut K V)).inc = [] ∧
+      (iterEvs (IterOut.runtimeError : IterOut K V)).dec = [] := by
+  refine ⟨?_, rfl, rfl⟩
+  unfold iterNext; rw [if_pos h]
 
 /-- destroying the tree releases every reference it holds, each exactly once -/
 theorem dealloc_balanced (s : CState K V) : (dealloc s).dec = slots s ∧ (dealloc s).inc = [] :=
